@@ -24,7 +24,8 @@ import time
 VERIF = os.path.dirname(os.path.abspath(__file__))
 REPO = os.environ.get("VERIF_REPO", "/repo")
 BUILD = os.path.join(VERIF, "build")
-NCPU = os.cpu_count() or 4
+NCPU = int(os.environ.get("VERIF_WORKERS", "0") or 0) or os.cpu_count() or 4
+REPOTAG = "r" if os.path.realpath(REPO) == "/repo" else "x" + hashlib.sha1(os.path.realpath(REPO).encode()).hexdigest()[:6]
 
 FLAVOURS = {
     # verdict flavour: semantics of the shipped library (NDEBUG), memory errors and UB visible
@@ -91,7 +92,7 @@ def build_binary(pid, b, thash):
             [os.path.join(VERIF, d) for d in b.get("deps", [])]:
         sha_file(h, f)
     key = h.hexdigest()[:16]
-    prefix = "%s-%s-" % (pid, b["name"])
+    prefix = "%s-%s-%s-" % (pid, b["name"], REPOTAG)
     bdir = os.path.join(BUILD, prefix + key)
     exe = os.path.join(bdir, b["name"])
     if os.path.exists(exe):
@@ -492,6 +493,18 @@ def main():
         return 0
     if a[0] == "selftest":
         return cmd_selftest()
+    if a[0] == "build-all":  # MANIFEST.setup_cmd: warm the build cache of every registered check
+        rc = 0
+        for f in sorted(glob.glob(os.path.join(VERIF, "checks", "C*.json"))):
+            pid = os.path.basename(f)[:-5]
+            try:
+                cfg = load_cfg(pid)
+                quick = {s["binary"] for s in cfg["steps"] if "binary" in s and "quick" in s.get("tiers", ["quick"])}
+                build_all(pid, cfg, quick | set(cfg.get("replay_binaries", [])))
+            except SystemExit as e:
+                print("build failed for", pid, e)
+                rc = 2
+        return rc
     print(__doc__)
     return 2
 
